@@ -259,11 +259,11 @@ fn f1(tier: Tier, acc: &Acc) {
 // ------------------------------------------------------------------------------------------
 // F2
 
-const PRELUDE: &str = "{% set cap %}{{ u }}{% endset %}{% macro mk(a) %}[{{ a }}]{% endmacro %}{% set sep %}, {% endset %}";
+const PRELUDE: &str = "{% set cap %}{{ u }}{% endset %}{% macro mk(a) %}[{{ a }}]{% endmacro %}{% set sep %}, {% endset %}{% set fmt %}[%s|%s]{% endset %}{% set fmtk %}[%(k)s]{% endset %}";
 
 /// (expression, is it a safe string)
 fn base_atoms() -> Vec<&'static str> {
-    vec!["u", "\"<l'&>\"", "cap", "mk(u)", "sep", "us", "mp", "nest", "ob", "n", "nope", "none"]
+    vec!["u", "\"<l'&>\"", "cap", "mk(u)", "sep", "fmt", "fmtk", "us", "mp", "nest", "ob", "n", "nope", "none"]
 }
 
 fn value_exprs(tier: Tier) -> Vec<String> {
@@ -304,7 +304,7 @@ const METHODS: &[&str] = &[
     "capitalize", "count", "endswith", "find", "format", "get", "isalnum", "isalpha", "isascii", "islower", "isspace", "isupper", "items", "join", "keys", "lower", "lstrip", "replace", "rfind", "rstrip", "split",
     "splitlines", "startswith", "strip", "title", "upper", "values",
 ];
-const KWARGS: &[&str] = &["end", "fill_with", "default", "attribute", "start", "d", "wrapstring", "first", "blank", "leeway", "case_sensitive", "reverse", "by", "width", "length", "count"];
+const KWARGS: &[&str] = &["k", "end", "fill_with", "default", "attribute", "start", "d", "wrapstring", "first", "blank", "leeway", "case_sensitive", "reverse", "by", "width", "length", "count"];
 
 fn arg_atoms() -> Vec<&'static str> {
     vec!["u", "\"<l'&>\"", "cap", "sep", "us", "mp", "n", "'k'", "'upper'", "'&lt;'", "yes"]
@@ -324,7 +324,7 @@ fn arg_tuples(max_arity: usize) -> Vec<String> {
         }
     }
     for k in KWARGS {
-        for x in ["u", "cap", "sep", "n"] {
+        for x in ["u", "cap", "sep", "n", "us", "mp"] {
             v.push(format!("{}={}", k, x));
         }
     }
@@ -433,7 +433,7 @@ fn f2(tier: Tier, acc: &Acc) {
     // plain printing of every value expression, directly and through each capture
     par_items(&vals, acc, |_, v, l| {
         let env = base_env();
-        for (i, w) in ["{{ @ }}", "{{ mk(@) }}", "{% set r %}{{ @ }}{% endset %}{{ r }}", "{% for it in [@] %}{{ it }}{% endfor %}", "{{ [@, cap]|join(sep) }}", "{{ '%s'|format(@) }}", "{{ sep|format(@) }}"].iter().enumerate() {
+        for (i, w) in ["{{ @ }}", "{{ mk(@) }}", "{% set r %}{{ @ }}{% endset %}{{ r }}", "{% for it in [@] %}{{ it }}{% endfor %}", "{{ [@, cap]|join(sep) }}", "{{ '%s'|format(@) }}", "{{ fmt|format(@, @) }}", "{{ fmtk|format(k=@) }}", "{{ fmt|format(cap, @) }}", "{{ fmt % (@, 1) if false else fmt|format(@, u) }}"].iter().enumerate() {
             f2_judge(&env, &format!("print_form{}", i), &w.replace('@', v), false, acc, l);
         }
     });
